@@ -30,7 +30,7 @@ func init() {
 }
 
 var noRoundTrip = map[string]bool{"seed:SeedFolderV": true, "seed:SeedFolderP": true, "seed:SeedHolder": true, "seed:SeedInlineFolderV": true,
-	"seed:SeedInlineFolderP": true, "seed:SeedInlineIfc": true, "seed:SeedCustomHolder": true}
+	"seed:SeedInlineFolderP": true, "seed:SeedInlineIfc": true, "seed:SeedCustomHolder": true, "seed:SeedTags": true}
 
 var routeNames = [...]string{"direct", "json", "ubjson", "cborl"}
 
@@ -45,7 +45,7 @@ func c11Body(x *engine.Exec, c *GoCase) {
 	if !c.V.IsValid() || (c.T.Kind() == reflect.Interface && c.V.IsNil() && c.Fam == "seeds") {
 		return
 	}
-	if noRoundTrip[c.Class] || gen.HasCustomFolder(c.T) {
+	if noRoundTrip[c.Class] || gen.HasCustomFolder(c.T) || gen.ValueHasCustomFolder(c.V) {
 		return // custom folders emit their own shape: not a round-trippable type (C12 covers them)
 	}
 	entry := "gotype.Fold+Unfold(" + routeNames[route] + ")"
